@@ -130,7 +130,12 @@ func genC15Request(r *Rng) c15req {
 	}
 	mt := strings.ToLower(strings.TrimSpace(base))
 	if base != "" {
-		base += Pick(r, []string{"", "", "; charset=utf-8", ";charset=utf-8", "; boundary=x"})
+		if base == "application/json" && r.P(0.15) {
+			// parameters are ignored, well-formed or not (for a form body net/http itself parses the header and may refuse it)
+			base += Pick(r, []string{"; charset", "; charset=", `; charset="utf-8`, "; q=0.9; Q=0.8", ";", "; =x"})
+		} else {
+			base += Pick(r, []string{"", "", "; charset=utf-8", ";charset=utf-8", "; boundary=x", "; charset=utf-8; q=0.9"})
+		}
 	}
 	io.CT = base
 	if r.P(0.7) {
